@@ -6,7 +6,7 @@ import PnVerif.Model.NumRecs
       S <hist> <opindex> nr=<numrecs rank0>,<numrecs rank1>,… hdr=<header field> hi=<ghost> own=<ghost per rank>
       S <hist> <opindex> DEAD                 (the model says the ranks block forever; rest of the history is skipped)
 
-  `HIST … fx=1` selects the repaired model (the NC_REQ_ZERO path joins the numrecs Allreduce).
+  `HIST … fx=zvw` (three 0/1 digits) selects the model variant: zeroPath, vardGuard, waitScan repairs present.
 -/
 open PnVerif.NumRecs
 
@@ -68,7 +68,7 @@ def showWorld (w : World) : String :=
 
 structure St where
   hist : String := "-"
-  fx : Bool := false
+  fx : Fix := {}
   k : Nat := 0
   w : Option World := none
 
@@ -79,7 +79,9 @@ partial def loop (h : IO.FS.Stream) (out : IO.FS.Stream) (st : St) : IO Unit := 
   let ws := words l
   match ws with
   | "HIST" :: id :: _ =>
-    loop h out { hist := id, fx := kvNat ws "fx" 0 == 1, k := 0, w := some (initWorld (kvNat ws "n" 2) (kvNat ws "nr0" 0)) }
+    let fs := ((ws.findSome? fun w => if w.startsWith "fx=" then some ((w.drop 3).toString) else none).getD "000").toList
+    let fx : Fix := { zeroPath := fs[0]? == some '1', vardGuard := fs[1]? == some '1', waitScan := fs[2]? == some '1' }
+    loop h out { hist := id, fx := fx, k := 0, w := some (initWorld (kvNat ws "n" 2) (kvNat ws "nr0" 0)) }
   | "END" :: _ => loop h out { st with w := none }
   | [] => loop h out st
   | _ =>
